@@ -64,7 +64,7 @@ def main():
                                     "--timeout=300", "tests"], cwd=root, env=env, capture_output=True, text=True)
                 tests = r.returncode == 0
             for prop in m["props"]:
-                env = dict(os.environ, HV_REPO=root)
+                env = dict(os.environ, HV_REPO=root, HV_EVIDENCE_DIR=os.path.join(root, "_evidence"))
                 r = subprocess.run([os.path.join(VERIF, "check"), prop], env=env, capture_output=True, text=True)
                 fired = "VIOLATION property=" + prop in r.stdout
                 keys = sorted(set(l.strip() for l in r.stdout.splitlines() if l.strip().startswith("key=")))
